@@ -59,6 +59,9 @@ func (t *Tmpl) args(root *gorm.DB) []interface{} {
 				panic("chains: struct carrier with name " + b.Name)
 			}
 		}
+		if t.CarrierPtr {
+			return []interface{}{&c}
+		}
 		return []interface{}{c}
 	default:
 		out := make([]interface{}, len(t.Binds))
@@ -249,14 +252,28 @@ func (u Unit) call(root *gorm.DB) (interface{}, []interface{}) {
 	case "tmpl", "named":
 		return u.T.SQL, u.T.args(root)
 	case "map":
+		switch u.MapType {
+		case "ss":
+			m := map[string]string{}
+			for i, k := range u.Keys {
+				m[k] = u.Vals[i].V.S
+			}
+			return m, nil
+		case "ii":
+			return map[interface{}]interface{}{u.Keys[0]: u.Vals[0].goValue(root)}, nil
+		}
 		return kvMap(u.Keys, u.Vals, root), nil
 	case "colval":
 		return u.Keys[0], []interface{}{u.Vals[0].goValue(root)}
 	case "struct":
-		if u.Ptr {
-			return u.Rec.goPtr(), nil
+		var fields []interface{}
+		for _, f := range u.Fields {
+			fields = append(fields, f)
 		}
-		return u.Rec.goValue(), nil
+		if u.Ptr {
+			return u.Rec.goPtr(), fields
+		}
+		return u.Rec.goValue(), fields
 	case "clause":
 		if u.Cl.Op == "list" { // only as Clauses(e1, e2, …)
 			exprs := make([]clause.Expression, len(u.Cl.Sub))
@@ -337,7 +354,18 @@ func (c *Chain) buildFrom(start, root *gorm.DB) *gorm.DB {
 			tx = tx.Model(modelOf(c.Base, 0))
 		}
 	case c.Kind == "delete":
-		// the model comes from the value handed to Delete
+		// the model comes from the value handed to Delete, unless an explicit one carries a key too
+		if c.ModelID != 0 {
+			tx = tx.Model(modelOf(c.Base, c.ModelID))
+		}
+	case c.UpKind == "updates-self":
+		// db.Updates(&X{ID: n, …}): the value is model and update at once
+	case len(c.ModelIDs) > 0:
+		rows := make([]Rec, len(c.ModelIDs))
+		for i, id := range c.ModelIDs {
+			rows[i] = Rec{Table: table, ID: id}
+		}
+		tx = tx.Model(recSlicePtr(rows))
 	default:
 		tx = tx.Model(modelOf(c.Base, c.ModelID))
 	}
@@ -526,6 +554,8 @@ func (c *Chain) ApplyFrom(start, root *gorm.DB) *gorm.DB {
 				return tx.Updates(c.SetRec.goPtr())
 			}
 			return tx.Updates(c.SetRec.goValue())
+		case "updates-self":
+			return tx.Updates(c.SetRec.goPtr())
 		case "updatecolumns-struct":
 			if c.SetPtr {
 				return tx.UpdateColumns(c.SetRec.goPtr())
